@@ -61,6 +61,17 @@ class Registry:
         self.interfaces[name] = c
         return c
 
+    def axiom(self, sig, body, text):
+        """a trusted axiom schema of the specification layer: usable only through hints (axiom_<name>(...)), reported as an assumption"""
+        self.define(sig, body)
+        name = sig.split("(")[0].strip()
+        if not name.startswith("axiom_"):
+            raise ValueError("axiom schemas are named axiom_*")
+        if not hasattr(self, "axioms"):
+            self.axioms = {}
+        self.axioms[name] = text
+        self.assume(text)
+
     def define(self, sig, body):
         """define('inbox(t, D, n)', 'forall(k, 0, n, ...)')"""
         call = ast.parse(sig, mode="eval").body
@@ -75,7 +86,7 @@ class Registry:
         for f in sorted(glob.glob(os.path.join(path, "*.py"))):
             text = open(f).read()
             self.sources[os.path.basename(f)] = hashlib.sha256(text.encode()).hexdigest()
-            ns = {"contract": self.contract, "define": self.define, "interface": self.interface, "assume": self.assume, "REG": self}
+            ns = {"contract": self.contract, "define": self.define, "interface": self.interface, "assume": self.assume, "axiom": self.axiom, "REG": self}
             exec(compile(text, f, "exec"), ns)
         return self
 
